@@ -80,6 +80,14 @@ func main() {
 	if os.Getenv("ALLIANCECHECK_DEBUG_INLINE") != "" {
 		fmt.Fprintf(os.Stderr, "inlined: %v\nnotes: %v\ndead: %v\n", e.Inlined, e.InlineNotes, e.DeadHelpers)
 	}
+	if *dump == "renamelocals" || *dump == "renameall" {
+		if *dir == "/repo" {
+			fmt.Println("refusing to rewrite /repo: use a scratch copy")
+			os.Exit(2)
+		}
+		renameLocals(e, *dump == "renameall")
+		return
+	}
 	if *dump == "params" {
 		dumpParams(e)
 		return
@@ -246,7 +254,7 @@ func dumpParams(e *Engine) {
 	var keys []string
 	byKey := map[string]*ssa.Function{}
 	for _, fn := range e.SMFuncs() {
-		if fn.Parent() != nil || len(fn.Params) == 0 {
+		if len(fn.Params) == 0 {
 			continue
 		}
 		k := FuncKey(fn)
@@ -289,4 +297,3 @@ func ptrMark(t types.Type) string {
 	}
 	return ""
 }
-
